@@ -118,6 +118,13 @@ func (r *Result) WantSample() bool {
 	return len(r.samples) < r.maxSamples
 }
 
+// SetCount sets an observation counter.
+func (r *Result) SetCount(key string, n int) {
+	r.mu.Lock()
+	r.counters[key] = int64(n)
+	r.mu.Unlock()
+}
+
 // Count bumps an observation counter.
 func (r *Result) Count(key string, n int) {
 	r.mu.Lock()
